@@ -1,6 +1,7 @@
 // C01 driver: replays the behaviours TLC generated from spec/SyncRound.tla on
 // the real sync.Run (scripted reference clocks and peers, fake system clock,
-// recording adjustment, virtual time) under several value embeddings and
+// recording adjustment, virtual time; the fake clock's Sleep returns as late and
+// its reading jumps as far as the behaviour says) under several value embeddings and
 // records, per clk.Sleep call, what the loop did, in model units, for
 // SyncRoundTrace.tla (monitor + strict).
 package c01
@@ -43,6 +44,9 @@ type mround struct {
 	Pc    int64   `json:"pc"`
 	Corr  int64   `json:"corr"`
 	Small bool    `json:"small"`
+	// the local clock during the Sleep call before this round (half intervals)
+	Slp int64 `json:"slp"`
+	Stp int64 `json:"stp"`
 }
 
 type tcase struct {
@@ -80,6 +84,14 @@ type rec struct {
 	ERc     int64  `json:"erc"`
 	EPc     int64  `json:"epc"`
 	ECorr   int64  `json:"ecorr"`
+	// the fake local clock during the Sleep call before this round, in half
+	// intervals (-1: not a whole number): how far clk.Now() moved, how long the
+	// call took, clk.Epoch() afterwards; and the generated behaviour's choice
+	El    int64 `json:"el"`
+	Slept int64 `json:"slept"`
+	Epoch int64 `json:"epoch"`
+	ESlp  int64 `json:"eslp"`
+	EStp  int64 `json:"estp"`
 }
 
 func realCfg(c mcfg, e emb, tau time.Duration) sync.Config {
